@@ -158,16 +158,20 @@ def gen_round(rng, chk):
 
 def gen_reject(rng, chk):
     kind = rng.choice(["othertype", "noref-temp", "noref-money"])
+    zero = rng.random() < 0.35
     if kind == "othertype":
         t1, t2 = rng.sample(SI.LINEAR_TYPES, 2)
-        a = Q(num(F(rng.randint(1, 99), 4)), rng.choice(SI.units_of(t1)))
+        a = Q(num(F(0) if zero else F(rng.randint(1, 99), 4),
+                  rng.choice(["D", "F"])), rng.choice(SI.units_of(t1)))
         b = Q(num(F(1)), rng.choice(SI.units_of(t2)))
     elif kind == "noref-temp":
-        a = Q(num(F(215, 10)), rng.choice(["°C", "K", "°F"]))
+        a = Q(num(F(0) if zero else F(215, 10)),
+              rng.choice(["°C", "K", "°F"]))
         b = Q(num(F(1, 2)), rng.choice(["°C", "K", "°F"]))
     else:
         a = ["c", ["g", "quantity.money:Money"],
-             [num(F(1234, 100)), ["m", ["g", "quantity.money:Money"],
+             [num(F(0) if zero else F(1234, 100)),
+              ["m", ["g", "quantity.money:Money"],
                                   "register_currency", [["s", "EUR"]]]]]
         b = ["c", ["g", "quantity.money:Money"],
              [num(F(5, 100)), ["m", ["g", "quantity.money:Money"],
@@ -182,6 +186,8 @@ def gen_reject(rng, chk):
             return
         chk.case(("reject", kind, str(steps[0]["e"])), nontrivial=True)
         chk.count("reject|" + kind)
+        if zero:
+            chk.count("reject|zero amount")
         r = obs.get("r")
         if obs.get("q", {}).get("k") != "Q" or obs.get("g", {}).get("k") != "Q":
             chk.violation("constructing operands failed",
@@ -208,6 +214,7 @@ def run(chk, R, tier, seed):
         chk.require("zero-corner-tie|%s|D" % mode)
     chk.require("round|tie")
     chk.require("reject|othertype")
+    chk.require("reject|zero amount")
     chk.require("reject|noref-temp")
     chk.require("reject|noref-money")
     chk.extra["rounding_model_selfcheck_cases"] = RM.SELFCHECK_CASES
